@@ -1871,7 +1871,10 @@ impl GroupBreak {
         already_indented: bool,
     ) -> bool {
         match self {
-            Self::LineStart | Self::SpaceOrReturn => true,
+            Self::LineStart => true,
+            // When the line is too long `needs_linebreak` has already returned to the start column,
+            // otherwise this break is a space (see `needs_space`).
+            Self::SpaceOrReturn => false,
             Self::MaybeReturn => line_is_too_long || force_break,
             Self::None
             | Self::IndentedBreak
